@@ -179,7 +179,7 @@ func scenario(w *vt.Writer, t *conc.Target, ops []*op, G, K int, sc int) {
 func kFor(t *conc.Target, G int, full bool) int {
 	k := 40
 	if full {
-		k = 160
+		k = 120
 	}
 	switch {
 	case t.Cost == 2:
